@@ -22,7 +22,10 @@
 package signaling
 
 import (
+	"crypto/hmac"
+	"crypto/sha256"
 	"encoding/base64"
+	"encoding/hex"
 	"errors"
 	"fmt"
 
@@ -52,6 +55,8 @@ func (s *protoSerializer) Deserialize(src []byte, dst interface{}) error {
 const (
 	privateSessionName = "private-session"
 	publicSessionName  = "public-session"
+
+	blockKeyBindingPrefix = "block-key|"
 )
 
 var (
@@ -60,19 +65,43 @@ var (
 
 type SessionIdCodec struct {
 	cookie *securecookie.SecureCookie
+
+	privateName string
+	publicName  string
+}
+
+// sessionCookieNames returns the names that are authenticated together with
+// the private and public session ids. The MAC only covers the (encrypted)
+// value, so the block key gets bound to the names. Otherwise ids created with
+// the same hash key but a different block key pass the MAC check and are
+// "decrypted" to garbage that might even deserialize.
+func sessionCookieNames(hashKey []byte, blockKey []byte) (string, string) {
+	if len(blockKey) == 0 {
+		return privateSessionName, publicSessionName
+	}
+
+	mac := hmac.New(sha256.New, hashKey)
+	mac.Write([]byte(blockKeyBindingPrefix)) // nolint
+	mac.Write(blockKey)                      // nolint
+	suffix := "/" + hex.EncodeToString(mac.Sum(nil))
+	return privateSessionName + suffix, publicSessionName + suffix
 }
 
 func NewSessionIdCodec(hashKey []byte, blockKey []byte) *SessionIdCodec {
 	cookie := securecookie.New(hashKey, blockKey).
 		MaxAge(0).
 		SetSerializer(&protoSerializer{})
+	privateName, publicName := sessionCookieNames(hashKey, blockKey)
 	return &SessionIdCodec{
 		cookie: cookie,
+
+		privateName: privateName,
+		publicName:  publicName,
 	}
 }
 
 func (c *SessionIdCodec) EncodePrivate(sessionData *SessionIdData) (string, error) {
-	return c.cookie.Encode(privateSessionName, sessionData)
+	return c.cookie.Encode(c.privateName, sessionData)
 }
 
 func reverseSessionId(s string) (string, error) {
@@ -89,7 +118,7 @@ func reverseSessionId(s string) (string, error) {
 }
 
 func (c *SessionIdCodec) EncodePublic(sessionData *SessionIdData) (string, error) {
-	encoded, err := c.cookie.Encode(publicSessionName, sessionData)
+	encoded, err := c.cookie.Encode(c.publicName, sessionData)
 	if err != nil {
 		return "", err
 	}
@@ -120,7 +149,7 @@ func (c *SessionIdCodec) DecodePrivate(encodedData string) (*SessionIdData, erro
 	}
 
 	var data SessionIdData
-	if err := c.cookie.Decode(privateSessionName, encodedData, &data); err != nil {
+	if err := c.cookie.Decode(c.privateName, encodedData, &data); err != nil {
 		return nil, err
 	}
 
@@ -138,7 +167,7 @@ func (c *SessionIdCodec) DecodePublic(encodedData string) (*SessionIdData, error
 	}
 
 	var data SessionIdData
-	if err := c.cookie.Decode(publicSessionName, encodedData, &data); err != nil {
+	if err := c.cookie.Decode(c.publicName, encodedData, &data); err != nil {
 		return nil, err
 	}
 
